@@ -354,12 +354,18 @@ func GenNum(repo string) (string, error) {
 			}
 			cc := &ctx{f: tf, consts: map[string]constant.Value{}, alias: map[string]string{}}
 			var ret *ast.ReturnStmt
+			var extra []string // statements besides constant declarations and the one return: early returns, side conditions
 			for _, st := range m.Body.List {
-				if ds, ok := st.(*ast.DeclStmt); ok {
-					collectConsts(cc, ds)
-				}
-				if r, ok := st.(*ast.ReturnStmt); ok {
-					ret = r
+				switch x := st.(type) {
+				case *ast.DeclStmt:
+					collectConsts(cc, x)
+				case *ast.ReturnStmt:
+					if ret != nil {
+						extra = append(extra, tf.text(ret))
+					}
+					ret = x
+				default:
+					extra = append(extra, tf.text(st))
 				}
 			}
 			if ret == nil || len(ret.Results) != 1 {
@@ -367,6 +373,11 @@ func GenNum(repo string) (string, error) {
 			}
 			// flatten a chain z.A(args).B(args) or z.withCheck(checks.X(args))
 			var chain []string
+			for _, x := range extra {
+				// not a call chain: the method does something before (or instead of) attaching its check —
+				// an entry no resolution goes through, so `methods_table` fails on it
+				chain = append(chain, "(false, "+leanStr("«"+x+"»")+", none)")
+			}
 			var walk func(e ast.Expr) error
 			walk = func(e ast.Expr) error {
 				call, ok := e.(*ast.CallExpr)
